@@ -1,1 +1,6 @@
-pub fn placeholder() {}
+pub mod ast;
+pub mod blockstr;
+pub mod gendoc;
+pub mod print;
+pub mod print_sdl;
+pub mod refparse;
